@@ -71,6 +71,9 @@ pub enum Job {
     /// (S_1..S_w) over `alpha`^w: drives the decoder through its singular cases (leading zero
     /// syndromes, geometric syndrome sequences) while staying within the correction capacity
     SyndromePrefix { si: usize, base: Base, block: usize, positions: Vec<usize>, alpha: Vec<u8> },
+    /// "phantom" errors: the syndromes of errors at locations n..=254 outside the shortened block
+    /// (c + v * (x^j mod g) in the EC part), alone, in pairs, and together with one real error
+    Phantom { si: usize, base: Base, block: usize },
     /// c + v * x^s * prod_{i in a..=b}(x - 2^i): syndromes a..=b vanish, the others do not (in general)
     ZeroRange { si: usize, base: Base, block: usize, full: bool },
     /// 10x10: all words within distance `dist` of the codeword whose first error is (pos, val)
@@ -343,6 +346,61 @@ pub fn expand(job: &Job, f: &mut dyn FnMut(&[u8], &[u8], CaseInfo)) {
                     r[g] = orig[g] ^ e;
                 }
                 f(&orig, &r, CaseInfo { max_block_weight: w });
+            }
+        }
+        Job::Phantom { si, base, block } => {
+            let sy = &SYMBOLS[*si];
+            let k = sy.ec_per_block();
+            let idx = blk_idx(sy, *block);
+            let n = idx.len();
+            let orig = base_codeword(*si, *base);
+            let g = gf::generator(k); // k + 1 coefficients, highest first, monic
+            // x^j mod g as k coefficients, highest first
+            let x_pow_mod = |j: usize| -> Vec<u8> {
+                let mut r = vec![0u8; k];
+                r[k - 1] = 1; // the polynomial 1
+                for _ in 0..j {
+                    let top = r[0];
+                    for q in 0..k - 1 {
+                        r[q] = r[q + 1];
+                    }
+                    r[k - 1] = 0;
+                    if top != 0 {
+                        for q in 0..k {
+                            r[q] ^= gf::mul(top, g[q + 1]);
+                        }
+                    }
+                }
+                r
+            };
+            let mut locs = vec![n, n + 1, n + 2, (n + 254) / 2, 253, 254];
+            locs.retain(|j| *j >= n && *j <= 254);
+            locs.sort_unstable();
+            locs.dedup();
+            let add = |r: &mut Vec<u8>, j: usize, v: u8| {
+                let p = x_pow_mod(j);
+                for q in 0..k {
+                    r[idx[n - k + q]] ^= gf::mul(p[q], v);
+                }
+            };
+            for (a, j) in locs.iter().enumerate() {
+                for v in V8 {
+                    let mut r = orig.clone();
+                    add(&mut r, *j, v);
+                    f(&orig, &r, CaseInfo { max_block_weight: usize::MAX });
+                    // with one real error in the data part and one in the EC part
+                    for p in [0usize, n / 2, n - 1] {
+                        let mut r2 = r.clone();
+                        r2[idx[p]] ^= 0x53;
+                        f(&orig, &r2, CaseInfo { max_block_weight: usize::MAX });
+                    }
+                    // two phantoms
+                    for j2 in locs.iter().skip(a + 1) {
+                        let mut r3 = r.clone();
+                        add(&mut r3, *j2, 0xAA);
+                        f(&orig, &r3, CaseInfo { max_block_weight: usize::MAX });
+                    }
+                }
             }
         }
         Job::ZeroRange { si, base, block, full } => {
